@@ -636,9 +636,6 @@ func run(c px.Context, parent []int, forked []bool, ts []bool, steps []stepT, st
 		if (s.op == "def" || s.op == "add" || s.op == "rr") && deps[s.l] != nil {
 			outside = true
 		}
-		if s.op == "addts" && ref.depRoot(s.l) >= 0 {
-			outside = true // its member lookups go through the dependency loader (and may meet a cached miss)
-		}
 	}
 
 	// the names of this line (the universe every observation ranges over), by canonical key
@@ -848,6 +845,9 @@ func run(c px.Context, parent []int, forked []bool, ts []bool, steps []stepT, st
 			want, wantX := "ok", "ok"
 			for _, m := range s.members {
 				mn, mv := s.member(m)
+				// (the member lookup goes through the loader: a dependency loader at the root binds lazily)
+				ref.lazyBind(s.l, mn)
+				exact.lazyBind(s.l, mn)
 				if _, known := ref.resolve(s.l, ref.key(mn)); !known && want == "ok" {
 					want = ref.define(s.l, ref.key(mn), mv.String())
 				}
